@@ -304,6 +304,43 @@ def trace_lines(ctx, nlines, end_year):
     return out
 
 
+# CONFIGURATION SWEEP: short runs (oracles only, no kernel replays) of three shipped projects with ONE configuration key
+# (or a pair of switches) away from the project's configuration — every value of the method selectors, both positions of the
+# automation switches, the alternative input formats.  Lines are numbered from 100 on.
+_A = "project=ex1 WeatherFolder=historical soilId=075 fcode=109_120 plotNr=10001 Altitude=73 Latitude=52.6732 poligonID=29872"
+_B = "project=ex3 WeatherFolder=historical soilId=075 fcode=109_120 plotNr=10001 Altitude=73 Latitude=52.6732 poligonID=29872"
+_Z = "project=zuc WeatherFolder=historical fcode=109_120 plotNr=10001 soilId=001 Altitude=73 Latitude=52.6732 poligonID=29872"
+SWEEP_QUICK = (
+    [(_A + " " + o, "EN") for o in ("ETpot=5", "CO2method=1", "CO2method=3", "PTF=1", "PTF=4", "PotMineralisation=1", "PotMineralisation=2",
+                                     "CropParameterFormat=yml", "Fertilization=50", "AutoIrrigation=1", "AutoFertilization=1",
+                                     "GroundWaterFrom=0", "LeachingDepth=10", "NDeposition=60")]
+    + [(_B + " " + o, "EN") for o in ("PTF=1", "PTF=3", "GroundWaterFrom=0", "GroundWaterFrom=1", "gwId=K5 PTF=1")]
+    + [(_Z + " " + o, "DE") for o in ("AutoFertilization=0", "AutoHarvest=0", "AutoSowingHarvest=0", "AutoIrrigation=0", "Fertilization=50",
+                                     "AutoSowingHarvest=0 AutoHarvest=0", "CropParameterFormat=yml")])
+SWEEP_MORE = (
+    [(_A + " " + o, "EN") for o in ("ETpot=1", "ETpot=2", "ETpot=3", "ETpot=4", "CO2method=2", "PTF=2", "PTF=3", "KcFactorBareSoil=0.4",
+                                     "CO2StomataInfluence=0", "NDeposition=0", "OrganicMatterMineralProportion=0.3", "Fertilization=150",
+                                     "AutoSowingHarvest=1", "CO2concentration=700", "InitSelection=2", "AnnualAverageTemperature=3")]
+    + [(_B + " " + o, "EN") for o in ("PTF=2", "PTF=4", "ETpot=2", "LeachingDepth=20")]
+    + [(_Z + " " + o, "DE") for o in ("AutoFertilization=0 AutoIrrigation=0", "ETpot=2")])
+
+
+def run_sweep(ctx, extra=""):
+    """-> (rc, cases, oracle lines, stderr) of the configuration sweep; [extra] is appended to every line"""
+    import os, hashlib
+    ex = prepare_examples(ctx)
+    lines = SWEEP_QUICK + (SWEEP_MORE if ctx.thorough else [])
+    endy = 1984 if ctx.thorough else 1981
+    lf = os.path.join(ctx.work, "sweep_lines_%s.txt" % hashlib.md5(extra.encode()).hexdigest()[:6])
+    with open(lf, "w") as f:
+        for i, (ln, fmt) in enumerate(lines):
+            f.write("%s%s EndDate=%s resultfolder=R/s%d\n" % (ln, extra, ("1231%d" if fmt == "EN" else "3112%d") % endy, i))
+    rc, cases, orc, other, err = run_harness(ctx, "trace", ["-work", ex, "-lines", lf, "-seed", str(ctx.seed), "-water-every", "1000000000",
+                                                            "-first-line", "100"])
+    ctx.extra["configuration_sweep_runs"] = len([c for c in cases if c["k"] == "run"])
+    return rc, cases, orc, err
+
+
 def run_trace(ctx, water_every=None):
     """traced runs of shipped projects (scratch copy) -> (rc, cases, oracle lines, stderr)"""
     import os
@@ -314,4 +351,5 @@ def run_trace(ctx, water_every=None):
         f.write("\n".join(trace_lines(ctx, nl, endy)) + "\n")
     we = water_every or (12 if ctx.thorough else 8)
     rc, cases, orc, other, err = run_harness(ctx, "trace", ["-work", ex, "-lines", lf, "-seed", str(ctx.seed), "-water-every", str(we)])
-    return rc, cases, orc, err
+    src, scases, sorc, serr = run_sweep(ctx)
+    return rc or src, cases + scases, orc + sorc, err + serr
